@@ -1,5 +1,6 @@
 mod util;
 mod c13;
+mod c04;
 mod c14;
 mod c20;
 
@@ -34,6 +35,7 @@ fn main() {
     util::quiet_panics();
     let rep = match prop.as_str() {
         "C13" => c13::run(&o),
+        "C04" => c04::run(&o),
         "C14" => c14::run(&o),
         "C20" => c20::run(&o),
         _ => {
